@@ -77,6 +77,8 @@ def gen_schedule(rng, route, nalloc, start, tier):
 def base_plan(rng, route):
     fl = rng.choice(FILLS)
     p = ["heapbase " + rng.choice(BASES), "stackpad %d" % rng.choice([0, 0, rng.range(1, 65536)])]
+    if rng.chance(1, 3):	# the process has further writable mappings of its own (host application, libraries)
+        p.append("mmaps %d" % rng.choice([3, 26, 40, 200]))
     if route == "interp":
         p.append("wash on %s %s" % fl)		# poison freed storage of the compiler's heap
     else:
